@@ -784,7 +784,9 @@ func makeUpdateStrategyMap(resources *dynamicdiscovery.ResourceMap, dc *v1alpha1
 func parentQueueKey(obj interface{}) (string, error) {
 	switch o := obj.(type) {
 	case cache.DeletedFinalStateUnknown:
-		return o.Key, nil
+		// The tombstone's own key is a store key (namespace/name), which
+		// splitParentQueueKey cannot parse. Build the key from the object.
+		return parentQueueKey(o.Obj)
 	case cache.ExplicitKey:
 		return string(o), nil
 	case *unstructured.Unstructured:
